@@ -276,14 +276,19 @@ impl Check for TradingSummaryCheck {
         let mut generator = rig.engine.trading_summary_generator(Decimal::new(5, 2));
         let summary = generator.generate(Daily);
 
-        // one entry per instrument / asset, keyed by that entity
-        let keys: Vec<_> = summary.instruments.keys().cloned().collect();
-        let want: Vec<_> = indexed.instruments().iter().map(|i| i.value.name_internal.clone()).collect();
+        // one entry per instrument / asset, keyed by that entity (the order of the listing is not
+        // part of the statement: compared as sets)
+        let mut keys: Vec<_> = summary.instruments.keys().cloned().collect();
+        let mut want: Vec<_> = indexed.instruments().iter().map(|i| i.value.name_internal.clone()).collect();
+        keys.sort();
+        want.sort();
         if keys != want {
             bad!("summary:instrument-keys", "summary lists instruments {keys:?}, the engine trades {want:?}");
         }
-        let akeys: Vec<_> = summary.assets.keys().map(|k| (k.exchange, k.asset.clone())).collect();
-        let awant: Vec<_> = indexed.assets().iter().map(|a| (a.value.exchange, a.value.asset.name_internal.clone())).collect();
+        let mut akeys: Vec<_> = summary.assets.keys().map(|k| (k.exchange, k.asset.clone())).collect();
+        let mut awant: Vec<_> = indexed.assets().iter().map(|a| (a.value.exchange, a.value.asset.name_internal.clone())).collect();
+        akeys.sort();
+        awant.sort();
         if akeys != awant {
             bad!("summary:asset-keys", "summary lists assets {akeys:?}, expected {awant:?}");
         }
@@ -304,7 +309,7 @@ impl Check for TradingSummaryCheck {
             }
         }
         let followed = follower.generate(Daily);
-        if followed.instruments.keys().ne(summary.instruments.keys()) || followed.assets.keys().ne(summary.assets.keys()) {
+        if followed.instruments.len() != summary.instruments.len() || followed.assets.len() != summary.assets.len() || followed.instruments.keys().any(|k| !summary.instruments.contains_key(k)) || followed.assets.keys().any(|k| !summary.assets.contains_key(k)) {
             bad!("follower:keys", "summary generator fed from the outputs lists {:?} / {:?}", followed.instruments.keys().collect::<Vec<_>>(), followed.assets.keys().collect::<Vec<_>>());
         }
         for (i, ins) in indexed.instruments().iter().enumerate() {
